@@ -203,8 +203,18 @@ def fixed_size(spec: dict) -> int | None:
     return None
 
 
+MODEL_RUNS: dict[str, int] = {}   # ---- raw JSON framer ---- (how often each framer model was named: evidence `model_runs_by_framer`)
+
+
 def model_head(spec: dict, path: str, hint: int, fixed_variant: bool = True) -> str | None:
     """endriver model + config for the receive side, or None if the framer has no Lean model (yet)"""
+    head = _model_head(spec, path, hint, fixed_variant)
+    if head is not None:
+        MODEL_RUNS[head.split()[0]] = MODEL_RUNS.get(head.split()[0], 0) + 1
+    return head
+
+
+def _model_head(spec: dict, path: str, hint: int, fixed_variant: bool = True) -> str | None:
     sep = separator(spec)
     if sep is not None:
         lim = limit_of(spec)
@@ -217,6 +227,12 @@ def model_head(spec: dict, path: str, hint: int, fixed_variant: bool = True) -> 
         if path == "copy":
             return f"re {n}"
         return f"bfx {n} {max(n, hint)}"
+    # ---- raw JSON framer ----
+    r = recv_spec(spec)
+    if r["k"] == "json" and not r.get("use_lines", True) and path == "copy":
+        # _JSONParser.raw_parse under the copying consumer (JSONSerializer has no buffered variant)
+        return f"jraw {limit_of(spec)}"
+    # ---- end raw JSON framer ----
     return None
 
 
